@@ -34,6 +34,21 @@ import (
 
 	"github.com/blinklabs-io/gouroboros/muxer"
 	"github.com/blinklabs-io/gouroboros/protocol"
+	"github.com/blinklabs-io/gouroboros/protocol/blockfetch"
+	"github.com/blinklabs-io/gouroboros/protocol/chainsync"
+	"github.com/blinklabs-io/gouroboros/protocol/handshake"
+	"github.com/blinklabs-io/gouroboros/protocol/keepalive"
+	"github.com/blinklabs-io/gouroboros/protocol/leiosfetch"
+	"github.com/blinklabs-io/gouroboros/protocol/leiosnotify"
+	"github.com/blinklabs-io/gouroboros/protocol/leiosvotes"
+	"github.com/blinklabs-io/gouroboros/protocol/localmessagenotification"
+	"github.com/blinklabs-io/gouroboros/protocol/localmessagesubmission"
+	"github.com/blinklabs-io/gouroboros/protocol/localstatequery"
+	"github.com/blinklabs-io/gouroboros/protocol/localtxmonitor"
+	"github.com/blinklabs-io/gouroboros/protocol/localtxsubmission"
+	"github.com/blinklabs-io/gouroboros/protocol/messagesubmission"
+	"github.com/blinklabs-io/gouroboros/protocol/peersharing"
+	"github.com/blinklabs-io/gouroboros/protocol/txsubmission"
 	rt "github.com/blinklabs-io/gouroboros/verifrt"
 	vtime "github.com/blinklabs-io/gouroboros/verifrt/vtime"
 	"verif/e1/e1lib"
@@ -77,6 +92,7 @@ type target struct {
 	initial  bool          // the state is the initial state, entered at start (timeout never armed)
 	reenter  bool          // the state is the initial state, re-entered by the prefix
 	maxT     time.Duration // largest timeout of the map
+	Tlo      time.Duration // lower end of a drawn timeout according to the package's declaration
 }
 
 func timeoutOf(e protocol.StateMapEntry) (t, tmax time.Duration, dynamic bool) {
@@ -86,6 +102,109 @@ func timeoutOf(e protocol.StateMapEntry) (t, tmax time.Duration, dynamic bool) {
 		return lo, lo + 200*time.Second, true
 	}
 	return e.Timeout, e.Timeout, false
+}
+
+// declared returns the state map as the protocol's PACKAGE declares it, before any client or
+// server constructor copied and edited it: the independent source for "which states have a
+// timeout, and is it a fixed or a drawn one".
+func declared(p *protos.Proto) protocol.StateMap {
+	ntn := p.Mode == protocol.ProtocolModeNodeToNode
+	switch p.Name {
+	case "handshake":
+		if ntn {
+			return handshake.StateMapNtN
+		}
+		return handshake.StateMapNtC
+	case "chain-sync":
+		if ntn {
+			return chainsync.StateMapNtN
+		}
+		return chainsync.StateMapNtC
+	case "block-fetch":
+		return blockfetch.StateMap
+	case "tx-submission":
+		return txsubmission.StateMap
+	case "keep-alive":
+		return keepalive.StateMap
+	case "peer-sharing":
+		return peersharing.StateMap
+	case "local-tx-submission":
+		return localtxsubmission.StateMap
+	case "local-state-query":
+		return localstatequery.StateMap
+	case "local-tx-monitor":
+		return localtxmonitor.StateMap
+	case "message-submission":
+		if p.Variant == "v1" {
+			return messagesubmission.VerifStateMapV1()
+		}
+		return messagesubmission.VerifStateMapV2()
+	case "local-message-submission":
+		return localmessagesubmission.VerifStateMap()
+	case "local-message-notification":
+		return localmessagenotification.VerifStateMap()
+	case "leios-fetch":
+		return leiosfetch.StateMap
+	case "leios-notify":
+		return leiosnotify.StateMap
+	case "leios-votes":
+		return leiosvotes.StateMap
+	}
+	panic("no declared state map known for " + p.Name)
+}
+
+// structure compares, state by state, the running configuration of a protocol object with the
+// package-level declaration. Constructors legitimately replace FIXED timeout values by their
+// configuration's; everything else must carry over.
+func structure(id string) []rt.Finding {
+	p := protos.Build(id)
+	decl, run := declared(p), p.Config.StateMap
+	var out []rt.Finding
+	bad := func(state, what, detail string) {
+		out = append(out, rt.Finding{Key: fmt.Sprintf("c14:structure|%s|%s|%s", id, state, what), What: detail})
+	}
+	names := map[string]bool{}
+	for s := range decl {
+		names[s.Name] = true
+	}
+	for s := range run {
+		names[s.Name] = true
+	}
+	var sorted []string
+	for n := range names {
+		sorted = append(sorted, n)
+	}
+	sort.Strings(sorted)
+	find := func(m protocol.StateMap, name string) (protocol.StateMapEntry, bool) {
+		for s, e := range m {
+			if s.Name == name {
+				return e, true
+			}
+		}
+		return protocol.StateMapEntry{}, false
+	}
+	for _, n := range sorted {
+		d, okD := find(decl, n)
+		r, okR := find(run, n)
+		switch {
+		case !okD || !okR:
+			bad(n, "state-missing", fmt.Sprintf("state %s: declared=%v running=%v", n, okD, okR))
+			continue
+		case d.Agency != r.Agency:
+			bad(n, "agency-differs", fmt.Sprintf("state %s: declared agency %v, running %v", n, d.Agency, r.Agency))
+		}
+		switch {
+		case d.TimeoutFunc != nil && r.TimeoutFunc == nil:
+			bad(n, "dynamic-timeout-lost", fmt.Sprintf("state %s is declared with a TimeoutFunc (drawn timeout, lower end %v); the running %s has none (fixed Timeout %v)", n, d.TimeoutFunc(), id, r.Timeout))
+		case d.TimeoutFunc == nil && r.TimeoutFunc != nil:
+			bad(n, "dynamic-timeout-added", fmt.Sprintf("state %s is declared with the fixed timeout %v; the running %s draws one", n, d.Timeout, id))
+		case d.TimeoutFunc != nil && d.TimeoutFunc() != r.TimeoutFunc():
+			bad(n, "dynamic-timeout-differs", fmt.Sprintf("state %s: lower end declared %v, running %v", n, d.TimeoutFunc(), r.TimeoutFunc()))
+		case d.TimeoutFunc == nil && d.Timeout > 0 && r.Timeout <= 0:
+			bad(n, "timeout-lost", fmt.Sprintf("state %s is declared with timeout %v; the running %s has none", n, d.Timeout, id))
+		}
+	}
+	return out
 }
 
 func localIs(p *protos.Proto) protos.Agency {
@@ -100,6 +219,7 @@ func localIs(p *protos.Proto) protos.Agency {
 // alphabet) and the first move the holder of agency can make there.
 func plan(id string) ([]target, []string) {
 	p := protos.Build(id)
+	decl := declared(p)
 	var notes []string
 	type node struct {
 		st   protos.ImplState
@@ -157,10 +277,23 @@ func plan(id string) ([]target, []string) {
 			maxT = tm
 		}
 	}
+	for _, e := range decl {
+		_, tm, _ := timeoutOf(e)
+		if tm > maxT {
+			maxT = tm
+		}
+	}
 	mk := func(n node, initial, re bool) target {
 		e := p.Config.StateMap[n.st.State]
 		t := target{id: id, state: n.st.State, path: n.path, move: -1, initial: initial, reenter: re, maxT: maxT}
 		t.T, t.Tmax, t.dynamic = timeoutOf(e)
+		// what the package declares decides whether the state's timeout is a drawn one
+		for ds, de := range decl {
+			if ds.Name == n.st.State.Name && de.TimeoutFunc != nil && !t.dynamic {
+				t.T, t.Tmax, t.dynamic = timeoutOf(de)
+			}
+		}
+		t.Tlo = t.T
 		ag, _ := p.AgencyOf(n.st.State)
 		t.localMv = ag == localIs(p)
 		for _, i := range letters(n.st) {
@@ -414,6 +547,9 @@ func scenario(t target, dk deltaKind) e1lib.Scenario {
 			case strings.HasPrefix(l, "draw "):
 				v, _ := strconv.ParseInt(l[5:], 10, 64)
 				T = time.Duration(v)
+				if t.dynamic && (T < t.Tlo || T > t.Tmax) {
+					return []rt.Finding{{Key: "c14:drawn-timeout-out-of-range", What: fmt.Sprintf("state %s: the engine drew %v, the declared TimeoutFunc yields values from %v (assumed below %v)", stateTag(&t), T, t.Tlo, t.Tmax)}}
+				}
 			case strings.HasPrefix(l, "error t="):
 				f := strings.SplitN(l[8:], " ", 2)
 				v, _ := strconv.ParseInt(f[0], 10, 64)
@@ -434,7 +570,7 @@ func scenario(t target, dk deltaKind) e1lib.Scenario {
 			case strings.HasPrefix(l, "handle "):
 				handled++
 			case l == "no-draw":
-				return []rt.Finding{{Key: "c14:timeout-func-not-consulted", What: fmt.Sprintf("state %s declares a TimeoutFunc; the conforming prefix was sent at time 0 but the engine had not drawn a timeout for the state one second later; %v", stateTag(&t), tailLogs(r.Logs))}}
+				return []rt.Finding{{Key: "c14:timeout-func-not-consulted", What: fmt.Sprintf("state %s is declared by its package with a TimeoutFunc (drawn timeout); the conforming prefix was sent at time 0 but the engine had not drawn a timeout for the state one second later; %v", stateTag(&t), tailLogs(r.Logs))}}
 			case strings.HasPrefix(l, "prefix-senderr"):
 				return []rt.Finding{{Key: "c14:harness-prefix-refused", What: l}}
 			}
@@ -561,6 +697,13 @@ func TestC14Plan(t *testing.T) {
 func TestC14(t *testing.T) {
 	e1lib.Main(t, "C14", func(thorough bool) []e1lib.Scenario {
 		var scs []e1lib.Scenario
+		// every state of every running configuration against the package-level declaration
+		var sf []rt.Finding
+		for _, id := range protos.IDs() {
+			sf = append(sf, structure(id)...)
+		}
+		scs = append(scs, e1lib.Scenario{Name: "structure|all-36-configurations", Body: func() { rt.Log("compared %d configurations", len(protos.IDs())) },
+			Check: func(*rt.Result) []rt.Finding { return sf }, Cfg: rt.Config{Horizon: time.Second}, MinB: 0, MaxB: 0, Budget: 30 * time.Second})
 		ts, _ := allTargets()
 		full := map[string]bool{"chain-sync/NtN": true, "block-fetch/NtN": true, "tx-submission/NtN": true, "local-tx-monitor/NtC": true, "handshake/NtN": true, "keep-alive/NtN": true}
 		for _, x := range ts {
